@@ -18,6 +18,7 @@ ARCH = {
                 handler=r'^randomx::JitCompilerA64::h_(\w+)$'),
     'rv64': dict(config='K3', cls='randomx::JitCompilerRV64', unit='src/jit_compiler_rv64.cpp', table='(anonymous namespace)::opcodeMap1',
                  handler=r'^(?:randomx::|\(anonymous namespace\)::)*h_(\w+)$'),
+    'rvv': dict(config='K3', cls='randomx::JitCompilerRV64', unit='src/jit_compiler_rv64_vector.cpp', table='randomx::JitCompilerRV64::instMap', generator='randomx::generateProgramVectorRV64'),
 }
 
 _H = {}
@@ -28,7 +29,20 @@ def handlers(ctx, arch):
     if k in _H:
         return _H[k]
     A = ARCH[arch]
-    F = astq.Facts(ctx, A['config'])
+    units = None
+    if A['config'] == 'K3':
+        # the scalar and the vector RV64 generators are separate translation units that define same-named statics
+        other = {'rv64': 'src/jit_compiler_rv64_vector.cpp', 'rvv': 'src/jit_compiler_rv64.cpp'}[arch]
+        units = [u for u in ctx.ast_units('K3') if u != other]
+    F = astq.Facts(ctx, A['config'], units)
+    if 'generator' in A:
+        g = F.func(A['generator'])
+        it = F.enum('randomx::InstructionType')
+        hs, loop, sw, ip = jitfacts.case_handlers(F, g, {v: k for k, v in it.items()})
+        if len(hs) < 30:
+            raise AnalysisBroken('%s: only %d instruction cases found' % (arch, len(hs)))
+        _H[k] = (F, hs)
+        return _H[k]
     hs = {}
     for f in F.funcs(A['handler']):
         if f['_unit'] != A['unit'] and not f['file'].endswith(A['unit'].split('/')[-1]):
@@ -47,7 +61,19 @@ def rule_tab_opc(ctx, R, arch, FI):
     F, hs = handlers(ctx, arch)
     I = decode.interp(ctx, FI)
     R.rule('TAB-OPC', 'for every opcode 0..255 the back-end\'s handler table selects the handler of the instruction the interpreter decodes for that opcode', min_instances=256)
-    tab, g = jitfacts.engine_table(F, A['table'])
+    if 'generator' in A:
+        # table of InstructionType bytes consumed by a switch
+        FT = astq.Facts(ctx, A['config'])
+        g = FT.glob(A['table'])
+        it = {v: k for k, v in FT.enum('randomx::InstructionType').items()}
+        init = g.get('init')
+        if not init or init['k'] != 'InitList':
+            raise AnalysisBroken('%s has no initialiser list' % A['table'])
+        tab = ['h_' + str(it.get(val(e), val(e))) for e in init['e']]
+        missing = [n for n in it.values() if n not in hs and n != 'NOP']
+        R.check(not missing, '%s switch handles every instruction type' % arch, A['unit'], expected='a case per InstructionType', found='missing %s' % missing)
+    else:
+        tab, g = jitfacts.engine_table(F, A['table'])
     R.saw(unit=A['unit'], config=A['config'])
     if len(tab) != 256:
         R.violation('%s table size' % arch, '%s:%d' % (g['file'], g['line']), expected=256, found=len(tab))
@@ -79,7 +105,7 @@ def rule_lw_sib(ctx, R, arch, FI):
         if not jsplit:
             for p in h.paths:
                 for c in p['helpers']:
-                    if helper_splits(F, c):
+                    if helper_splits(F, c, h=h):
                         jsplit = True
         exp = isplit[name]
         R.check(jsplit == exp, '%s %s' % (arch, name), '%s:%d' % (h.f['file'], h.f['line']), expected='distinguishes src == dst: %s' % exp, found=jsplit, rule='SPLIT-SIB')
@@ -90,8 +116,29 @@ def rule_lw_sib(ctx, R, arch, FI):
 _HS = {}
 
 
-def helper_splits(F, call, depth=0):
+def helper_splits(F, call, depth=0, h=None):
     fn = call.get('fn')
+    if fn and F.has_func(fn) and jitfacts.instr_param(F.func(fn)) is None:
+        # helper that receives register numbers: it distinguishes the instruction's src == dst only if its `src` parameter is fed from the instruction's
+        # src field and its `dst` parameter from the dst field (emitImm32(dst, dst, ...) compares two copies of the same register)
+        g = F.func(fn)
+        roles = {}
+        for prm, a in zip(g['params'], call.get('a', [])):
+            if prm.get('name') in ('src', 'dst'):
+                roles[prm['name']] = h.desc(a) if h is not None else None
+        if roles.get('src') != 'src' or roles.get('dst') != 'dst':
+            return False
+        for x in walk(g['body']):
+            if x['k'] == 'Bin' and x['op'] in ('!=', '==') and {show(x['l']), show(x['r'])} == {'src', 'dst'}:
+                return True
+        return False
+    if fn and F.has_func(fn):
+        # a helper that compares its src / dst parameters does not split when the call passes a register number outside 0..7 for one of them
+        # (the RV64 vector back-end passes RegistersCount as dst for the float loads)
+        g = F.func(fn)
+        for prm, a in zip(g['params'], call.get('a', [])):
+            if prm.get('name') in ('src', 'dst') and val(a) is not None and not (0 <= val(a) < 8):
+                return False
     if fn in _HS:
         return _HS[fn]
     res = False
@@ -288,7 +335,11 @@ def rule_cfr_x86(ctx, R, FI):
     where = '%s:%d' % (f['file'], f['line'])
     R.rule('CFR-SIB', 'x86 h_CFROUND: rotates so that the two mode bits land on MXCSR bits 13-14, applies the v2 test only under the v2 flag with the interpreter\'s bit mask (60) shifted by 13, '
            'and loads MXCSR with (x & 0x6000) | rx_mxcsr_default', min_instances=5)
-    dflt = F.const('rx_mxcsr_default')
+    from rules.driver import reset_word, CSR_CTRL
+    _f, _kb, _n = reset_word(F)
+    if (_kb.ones | _kb.zeros) & CSR_CTRL != CSR_CTRL:
+        raise AnalysisBroken('CFR-SIB: the interpreter reset word is not a constant (see FP-RESETWORD)')
+    dflt = _kb.ones & CSR_CTRL
     arr = F.glob('randomx::AND_OR_MOV_LDMXCSR')
     bs = [val(e) for e in arr['init']['e']]
     dec = decode_x86_bytes(bs)
